@@ -25,7 +25,11 @@ What is proved, for ALL schedules of the event-level machine (no bound on anythi
   (4) `C20_every_message_checked` (the constraint verdict itself is the oracle `Spec.ok`: C02/C07)
   (5) `C20_bad_remote_fails`, `C20_truncated_remote_fails`, `C20_unexpected_party_fails`,
       `C20_accepted_remote_was_parsed_and_checked`, `C20_failed_is_final`
-  fragmentation: `C20_fragmentation_irrelevant` (+ `C20_chunking_same_state`)
+  fragmentation / interleaving: `C20_fragmentation_irrelevant` (+ `C20_chunking_same_state`): how a party's data is
+      cut into receive() calls is invisible; `C20_recv_commutes_with_exStep`: data arriving while an extraction
+      reads does not disturb it.  NOT proved as one theorem: "the extracted message is a function of the
+      per-sender stream alone" across buffers that interleave several senders differently (it follows from
+      `findNext_spec` + `C20_stream_accounting` informally; the harness checks it on every run).
 
 PARTIAL with respect to: threads, sockets, wall-clock (time-outs are events the environment may fire
 whenever the code waits); the parser of one message type and the constraint evaluation are oracles
